@@ -1947,6 +1947,10 @@ func (g Gateway) Uint32SliceDelete(ctx context.Context, in *hydrapb.Uint32SliceD
 			// if the length is 0, we can delete the treasure
 			size, err := treasureObj.Uint32SliceSize()
 			if err != nil || size == 0 {
+				// release the guard before deleting the treasure: DeleteTreasure acquires the guard
+				// of the same treasure, so holding it here would block this request forever
+				// (the deferred release of an already released guard ID is a no-op)
+				treasureObj.ReleaseTreasureGuard(guardID)
 				// delete the treasure
 				if err := swampObj.DeleteTreasure(pair.GetKey(), false); err != nil {
 					errorsWhileDelete = append(errorsWhileDelete, err.Error())
